@@ -1,6 +1,6 @@
 (* Harness.v: dispatch from a decoded case (function name, arguments) to the model.
    Part of the correspondence harness. *)
-From CCT Require Import Prelude Hex Num Time Formats Json Auth Signing Construct Sha256 Wire Keys Gpg Cli.
+From CCT Require Import Prelude Hex Num Time Formats Json JsonParse Auth Signing Construct Sha256 Wire Keys Gpg Cli.
 Open Scope N_scope.
 
 Definition unit_res (r : res unit) : res pv := x <- r ;; Ok VNone.
@@ -47,6 +47,12 @@ Section Run.
         else if is (U"checkformat_delegating_metadata") then unit_res (checkformat_delegating_metadata a)
         else if is (U"checkformat_key") then unit_res (checkformat_key a)
         else if is (U"canonserialize") then (b <- canonserialize a ;; Ok (VBytes b))
+        else if is (U"json_loads") then
+          match a with
+          | VStr t => match parse t with Some v => Ok v | None => Err JSONDecodeError end
+          | _ => Unmodelled
+          end
+        else if is (U"canon") then Ok (canon a)
         else if is (U"frame") then
           match a with
           | VList [VBytes d; VBytes h] => (m <- frame d h ;; Ok (VBytes m))
